@@ -163,7 +163,7 @@ func (c C19) Run(t *tape.Tape, opt core.RunOpt) (res core.Result) {
 			var gotClean []int
 			bad := ""
 			failedIdx := map[int]bool{} // registry entries (indexes into live) whose delivery failed
-			resolveErrs := 0 // selections applied to an event whose msg field fails to resolve
+			resolveErrs := 0            // selections applied to an event whose msg field fails to resolve
 			for _, e := range env.log {
 				p := strings.SplitN(e.Detail, "|", 3)
 				sid, _ := strconv.Atoi(p[0])
